@@ -38,6 +38,23 @@ def gen(tier, seed):
                           # a representation that is NOT minimal (degree raised by the implementation first): the
                           # derivative must not tidy up its operand
                           "elevate": (rnd.choice((1, 2)) if (not rational and p <= 2 and n <= 5 and rnd.random() < 0.5) else 0)})
+    # integer knot vectors with non-unit spacing, given as Python ints (coefficients p / (u_(i+p) - u_i) are not integers)
+    for i in range(8 if tier == "quick" else 60):
+        p = rnd.randint(1, 3)
+        m = rnd.randint(1, 3)
+        ks = sorted(rnd.sample(range(-3, 12), m + 2))
+        U = [F(ks[0])] * (p + 1) + sum(([F(k)] * rnd.randint(1, p) for k in ks[1:-1]), []) + [F(ks[-1])] * (p + 1)
+        n = npts_of(U, p)
+        dim = rnd.choice((1, 2))
+        cases.append({"U": fsl(U), "p": p, "kind": "int-knots", "mults": [U.count(F(k)) for k in ks[1:-1]], "scalar": dim == 1,
+                      "P": pts_json(rand_points(rnd, n, dim)), "W": None, "elevate": 0, "intknots": True})
+    # rational Bezier curves of degree 4 and 5 (products of degree 8 and 10 inside the quotient rule)
+    for p in ((4, 5) if tier == "quick" else (4, 5, 4, 5, 6)):
+        a, b = rnd.choice(((F(0), F(1)), (F(-1), F(2)), (F(1, 2), F(3))))
+        U = [a] * (p + 1) + [b] * (p + 1)
+        dim = rnd.choice((1, 2))
+        cases.append({"U": fsl(U), "p": p, "kind": "rational-bezier-high", "mults": [], "scalar": dim == 1,
+                      "P": pts_json(rand_points(rnd, p + 1, dim)), "W": fsl(rand_weights(rnd, p + 1)), "elevate": 0})
     return cases
 
 
@@ -45,7 +62,10 @@ def impl(case):
     from compmec.nurbs import Curve
     from compmec.nurbs.calculus import Derivate
     from implib import capture, nums, points, curve_state
-    curve = Curve(nums(case["U"]), points(case["P"], case["scalar"]))
+    U = nums(case["U"])
+    if case.get("intknots"):
+        U = [int(u) for u in U]
+    curve = Curve(U, points(case["P"], case["scalar"]))
     if case["W"] is not None:
         curve.weights = nums(case["W"])
     if case.get("elevate"):
